@@ -174,7 +174,9 @@ class DoubleWell:
 
 def new_neb(pot, k, density, max_images, conv=1e-4):
     from topsearch.transition_states.nudged_elastic_band import NudgedElasticBand
-    return NudgedElasticBand(pot, float(k), float(density), int(max_images), conv)
+    # a density read with `np.loadtxt` from a one-number file, or produced by `np.squeeze`, is a 0-d array: a legitimate
+    # number (a third of the objects get one) that an in-place update of the density would modify for everybody
+    return NudgedElasticBand(pot, float(k), (density if isinstance(density, np.ndarray) else float(density)), int(max_images), conv)
 
 
 def new_coords(box, x1):
@@ -904,10 +906,13 @@ def judge_candidates(c, p, band, e, site) -> list[tuple[str, str]]:
     return out
 
 
-def pred_interp(k, density, mx, box, calls) -> list[tuple[str, str]]:
+def pred_interp(k, density, mx, box, calls, as_array: bool = False) -> list[tuple[str, str]]:
     """image count bounds, ends, images in the box, density restored — over a sequence on one object"""
     out = []
-    neb = new_neb(TablePot(), k, density, mx)
+    # `as_array`: the density arrives as a 0-d numpy array (np.loadtxt on a one-number file, np.squeeze): a legitimate
+    # number, and the caller's own object — an in-place update of the density would change it for everybody
+    given = np.array(float(density)) if as_array else density
+    neb = new_neb(TablePot(), k, given, mx)
     box0 = box
     for call in calls:
         x1, x2, attempts = call[0], call[1], call[2]
@@ -923,6 +928,15 @@ def pred_interp(k, density, mx, box, calls) -> list[tuple[str, str]]:
                         "straight line between the two minima"))
         if not (10 <= n <= mx) or len(band) != n:
             out.append(("image-count:initial_interpolation", f"{n} images (rows {len(band)}) with max_images={mx}, attempts={attempts}"))
+        if as_array:
+            dist = float(np.linalg.norm(np.array(x1, dtype=float) - np.array(x2, dtype=float)))
+            eff = float(density) * 1.5 * attempts if attempts > 0 else float(density)
+            want = min(max(int(eff * dist), 10), mx)
+            if n != want:
+                out.append(("image-count:density-given-as-array", f"{n} images for a band of length {dist:g} at the configured "
+                            f"density {float(density)} (attempts={attempts}): the configured density asks for {want}"))
+            if float(given) != float(density):
+                out.append(("no-residue:callers-density", f"the caller's density array now holds {float(given)} (was {float(density)})"))
         if band[0].tobytes() != np.array(x1, dtype=float).tobytes():
             out.append(("first-image:linear_interpolation", "the band does not begin at the first minimum"))
         if float(np.max(np.abs(band[-1] - np.array(x2)))) > 1e-12:
@@ -1159,7 +1173,9 @@ def predicates(ctx: Ctx) -> None:
         box = box0
         case = (rng.choice([1.0, 50.0]), rng.choice([0.5, 1.0, 3.0, 7.3, 10.0, 40.0]),
                 rng.choice([10, 11, 15, 20, 50]), box, calls)
-        ctx.stats.case({"stream": "predicate-interp", "d": d}, True)
+        if rng.random() < 0.3:
+            case = case + (True,)                               # the density arrives as a 0-d array
+        ctx.stats.case({"stream": "predicate-interp", "d": d, "density_as_array": len(case) > 5}, True)
         _run_pred(ctx, pred_interp, case, "initial_interpolation", {"pred": "interp", "case": list(case)})
     for _ in range(ctx.scale(10, 150) * deep):
         cfg = gen_run_sequence(rng, rng.randrange(2, 5))
@@ -1184,9 +1200,9 @@ def replay(ctx: Ctx, data: dict) -> bool:
     elif kind == "candidates":
         fails = guarded(pred_candidates, case, "find_ts_candidates")
     elif kind == "interp":
-        k, density, mx, box, calls = case
-        fails = guarded(pred_interp, (k, density, mx, [tuple(b) for b in box], [tuple(c) for c in calls]),
-                        "initial_interpolation")
+        k, density, mx, box, calls = case[:5]
+        fails = guarded(pred_interp, (k, density, mx, [tuple(b) for b in box], [tuple(c) for c in calls],
+                                      bool(case[5]) if len(case) > 5 else False), "initial_interpolation")
     elif kind == "molinterp":
         name, moves, density, mx, attempts = case
         fails = guarded(pred_molecular_interp, (name, [tuple(m) for m in moves], density, mx, list(attempts)),
